@@ -12,7 +12,7 @@ from checks_table import CHECKS, META, NOT_APPLICABLE  # noqa: E402
 props = [json.loads(l)["id"] for l in open(os.path.join(ROOT, "properties.jsonl"))]
 
 hook_commits = subprocess.run(["git", "-C", "/repo", "log", "--format=%h", "--", "pkg/scheduler/verif_hooks.go", "pkg/scheduler/objects/verif_hooks.go",
-                               "pkg/events/verif_hooks.go", "pkg/locking/verif_hooks.go", "pkg/scheduler/ugm/verif_hooks.go", "pkg/scheduler/placement/verif_hooks.go"],
+                               "pkg/events/verif_hooks.go", "pkg/locking/verif_hooks.go", "pkg/webservice/verif_hooks.go", "pkg/scheduler/ugm/verif_hooks.go", "pkg/scheduler/placement/verif_hooks.go"],
                               stdout=subprocess.PIPE, text=True).stdout.split()
 
 m = {
